@@ -40,7 +40,9 @@ META = dict(
     technique='decision-table extraction from the if/elif chains (ordered guard -> '
               'action) compared with the documented table; subclass-shadowing test; '
               'canonical-form check of the separation measure and of the '
-              'polarisation interpolation formula; shared-state effect analysis',
+              'polarisation interpolation formula; shared-state effect analysis'
+              '; class-wise truth tables over every scatterer class with the document'
+              'ed shape of each class as the oracle',
     level_text='Static: Q1-Q3 decide the default-theory clause exhaustively (the '
                'dispatch is a finite table) and that "auto" cannot differ from '
                'naming the theory; Q4 is an algebraic identity of the cross-section '
